@@ -60,6 +60,23 @@ fn main() {
             });
         }
     }
+    if want("crop-denormal-width") {
+        // a sub-pixel crop so narrow that left + width == left: the validator accepts it,
+        // the horizontal coefficient table has a zero scale
+        for (pt, name) in [(PixelType::U8, "U8"), (PixelType::U16, "U16"), (PixelType::F32, "F32")] {
+            let src = Image::new(4, 4, pt);
+            let mut dst = Image::new(3, 3, pt);
+            let mut r = Resizer::new();
+            for (l, t, w, h) in [(1.0, 0.0, 1e-300, 4.0), (0.0, 1.0, 4.0, 1e-300), (1.0, 0.0, 1e-17, 4.0), (0.0, 0.0, 1e-300, 4.0)] {
+                for alg in [ResizeAlg::Convolution(fr::FilterType::Bilinear), ResizeAlg::Nearest,
+                            ResizeAlg::SuperSampling(fr::FilterType::Bilinear, 2)] {
+                    guard(&format!("{name} crop({l},{t},{w:e},{h:e}) 4x4 -> 3x3 {alg:?}"), || {
+                        r.resize(&src, &mut dst, &ResizeOptions::new().crop(l, t, w, h).resize_alg(alg))
+                    });
+                }
+            }
+        }
+    }
     if want("cropbox-overflow") {
         let img = TypedImage::<U8>::new(4, 4);
         guard("TypedCroppedImage::from_ref(4x4, 1,0,u32::MAX,1)", || {
